@@ -44,6 +44,9 @@ CLAIMS = {
  'C11': ("Decides the session-table discipline: every use of a session obtained for a request-supplied id is guarded by lookupSession's ok; lookupSession's admit/reject table (unknown→404, owner mismatch/no token→403) via three-valued CFG evaluation; three writers of the table, all under h.mu, creation only on the header-less path with the owner captured first; ids minted/announced only on that path and on initialize; startPOST/defer endPOST pairing, refs/timer under timerMu, re-arm only at refs==0, timer callback only closes; DELETE closes synchronously, Close reaches the onClose decision on every path, failed-initialize cleanup; stateless default path never reads or sets the id and answers 405+Allow. "
          "Not decided: timer races under a virtual clock; uniqueness of GetSessionID values (assumption).",
          "guard dominance on uses of looked-up values, three-valued CFG evaluation of the lookup table, writer enumeration with lock checks, pairing rules", "§3 C11"),
+ 'C09': ("Decides the structural part of client-side resumption: the SSE scanner may dispatch only on a blank line that was actually read, only io.EOF is end of input and other read errors are terminal (two dispatch sites at end of input are the known finding D2); the resume cursor is assigned only from a non-empty id of an event yielded without error and is what connectSSE presents as Last-Event-ID; every resume-requesting return of processStream is dominated by the unresumable test whose branch hands the session a synthetic error for forCall.ID; every return of handleSSE is client-closed, already-failed-as-unresumable, or preceded by c.fail; every hand-off send is a select arm next to the connection's done channel; retry counter reset only on progress, incremented otherwise, compared before reconnecting; reconnect loop bounded and abortable. "
+         "Not decided: exactly-once delivery over all byte offsets and reconnect outcomes.",
+         "guard dominance on dispatch sites, value-source rules for the cursor, must-pass-through for error surfacing, select-arm structure rules, counter automaton rules", "§3 C09"),
 }
 
 REASONS = {}
